@@ -133,6 +133,12 @@ func (g *Gen) loadSpecFile(path, pkg string) error {
 		if old, dup := g.contracts[c.Key]; dup {
 			return fmt.Errorf("%s:%d: duplicate contract for %s (first at %s:%d)", c.File, c.Line, c.Key, old.File, old.Line)
 		}
+		// a clause taken on trust may only speak about state the frame lets change: with an inferred
+		// frame, an `assumed` (or trusted) postcondition about ghost state the body never writes would
+		// contradict the frame and silently prune the path - so such contracts must declare their frame
+		if (len(c.Assumed) > 0 || (c.Trusted && len(c.Ensures) > 0)) && c.Modifies == nil {
+			return fmt.Errorf("%s:%d: contract for %s has clauses taken on trust (assumed/trusted) but no declared frame: add `modifies ...` or `pure`", c.File, c.Line, c.Key)
+		}
 		g.contracts[c.Key] = c
 	}
 	for _, f := range sf.Funcs {
